@@ -27,7 +27,8 @@ type lcWorker struct {
 	result  chan string
 	running bool
 	calls   int
-}
+	arg     string // the call in progress ("goc <pk>", "rm <pk>", "clr")
+	}
 
 type lcCase struct {
 	ctx     *Ctx
@@ -110,6 +111,7 @@ func (c *lcCase) settle() {
 	deadline := time.Now().Add(settleBound)
 	for {
 		stable := true
+		orphan := ""
 		var gs map[int64]goState
 		for _, w := range c.workers {
 			if !w.running {
@@ -140,6 +142,19 @@ func (c *lcCase) settle() {
 			g := gs[w.gid]
 			if !(g.state == "chan receive" && strings.Contains(g.stack, "GetOrCreate")) {
 				stable = false
+			} else {
+				// parked on somebody else's creation: that creation must still be in progress (its creator at the
+				// create gate), otherwise nobody is left to release this caller
+				var pk int
+				if _, err := fmt.Sscanf(w.arg, "goc %d", &pk); err == nil {
+					c.mu.Lock()
+					inflight := c.inCreate[c.km(pk)]
+					c.mu.Unlock()
+					if inflight == 0 {
+						stable = false
+						orphan = fmt.Sprintf("caller %d is parked in GetOrCreate(%d) waiting for another caller's creation, but no creation for that key is in progress any more (it succeeded or failed): nobody will release it", w.idx, pk)
+					}
+				}
 			}
 		}
 		if stable {
@@ -148,7 +163,11 @@ func (c *lcCase) settle() {
 			return
 		}
 		if time.Now().After(deadline) {
-			c.ctx.R.Quiet("mon C09-no-stuck-caller", "the system did not settle within 10s")
+			if orphan != "" {
+				c.ctx.R.Quiet("mon C09-no-stuck-caller", orphan)
+			} else {
+				c.ctx.R.Quiet("mon C09-no-stuck-caller", "the system did not settle within 10s")
+			}
 			c.failed = true
 			return
 		}
@@ -305,6 +324,7 @@ func runLruConcCase(ctx *Ctx, capacity, mod, nworkers, steps int) {
 				c.nontriv = true
 			}
 			ctx.R.Op(fmt.Sprintf("call %d %s", a.w, a.arg), "ok")
+			w.arg = a.arg
 			w.start <- a.arg
 		case "rel":
 			if a.arg == "ok" {
@@ -403,6 +423,10 @@ func runLruConc(ctx *Ctx) {
 	}
 	r := ctx.Rnd
 	for c := 0; c < n; c++ {
+		if ctx.R.Enough() {
+			ctx.R.Comment("several violations recorded already: the remaining cases are skipped")
+			break
+		}
 		runLruConcCase(ctx, r.Range(1, 3), []int{0, 0, 2}[r.Intn(3)], r.Range(2, 4), r.Range(6, 24))
 	}
 }
